@@ -20,6 +20,8 @@ ASSUME_COMMON = [
 # ------------------------------------------------------------------------------------------------
 def exec_cases(ctx, tag, families, rate, workers=10, timeout=900, devs=None):
     """Run MC_Exec for the given families; returns the REPLAY records (case + allowed outcome)."""
+    if not ctx.quick:
+        timeout = max(timeout, 6000)          # (the full enumerations take long on a loaded machine)
     consts = dict(BASE_CONSTS)
     consts.update({"Seed": ctx.seed, "Rate": rate, "Families": set(families), "Deep": not ctx.quick,
                    "KnownDevs": set(core.known_devs(ctx.prop)) if devs is None else set(devs)})
@@ -719,7 +721,7 @@ def crash_only(f):
 def extra_C05(ctx):
     # the case families of the other properties, replayed for crash-freedom only (long programs,
     # extreme operands, deep and backward calls): a wrong value is C01's business, a panic is C05's
-    recs = exec_cases(ctx, "crash", ["alu", "jmp", "far", "farcall", "calls", "mem", "bounds", "helpers"], 48 if ctx.quick else 2, timeout=1500)
+    recs = exec_cases(ctx, "crash", ["alu", "jmp", "far", "farcall", "calls", "mem", "bounds", "helpers", "flow", "pairs"], 48 if ctx.quick else 4, timeout=1500)
     replay_exec(ctx, "crash", recs, ["interp"], claim=crash_only)
     # direction A: arbitrary accepted programs under an instruction budget, every step validated
     trace_interp(ctx, "arbitrary", 400 if ctx.quick else 20000, mode="arbitrary")
